@@ -157,6 +157,12 @@ def explore(run, focus, n_random, hosts=("plain",), malformed_rate=0.0, exhausti
                 and not getattr(c, "same_names", False):
             c.parent_via_callback = True        # handlers in the register_parent style asking `chart.parent_callback()`
             run.count("handlers ask the chart for their parent (parent_callback without argument)")
+        if focus == "C23" and spied is True and src == "random" and mal is None and ops and ops[0][0] == 0 and (run.evaluations // 3) % 4 == 2:
+            # mixed decoration: the start state carries the decorator (the host is instrumented), some other states do not
+            keep = set(i for i in range(1, c.n + 1) if (i * 7 + run.evaluations) % 3 != 0)
+            keep.add(ops[0][1])
+            spied = sorted(keep)
+            run.count("only some states carry the spy decorator")
         if focus in ("C01", "C03") and src == "random" and mal is None and (run.evaluations // 3) % 5 == 1:
             c.silent_actions = True               # entry actions and transition-less init actions end with a bare `return`
             run.count("entry / init actions that return no status")
@@ -348,7 +354,7 @@ def name_oracle(run, focus, c, ops, real, hsm, cj, host, spied):
         if focus == "C22" and not is_query:
             continue
         hit = True
-        run.count("name check host=%s spied=%s %s" % (host, spied, "query" if is_query else "step"))
+        run.count("name check host=%s spied=%s %s" % (host, "some states" if isinstance(spied, list) else spied, "query" if is_query else "step"))
         site = ("is_in" if o == 2 else "child_state") if is_query else ("start_at" if o == 0 else "dispatch")
         if nm["state_name"] != want:
             run.violate("%s/state_name/%s/%s" % (focus, site, "spied" if spied else "unspied"),
@@ -705,6 +711,58 @@ def explore_literal_depths(run, focus):
                 problem = "is_in(outermost) = %s, child_state(outermost) = %s" % (got[3]["res"], got[4]["res"])
         if problem:
             run.violate("%s/deep-chain-%d" % (focus, D), "a chain of %d nested states (hsm.py contains the literal %d): %s" % (D, L, problem), cj)
+        run.case(cj, nontrivial=True)
+
+
+class SensorLost(Exception):
+    pass
+
+
+def explore_raising_query(run, n):
+    """C22 when a handler on the active path raises while a query consults it (a precondition on chart data that an earlier event
+    invalidated): the query about a state outward of it has no answer - the handler's exception reaches the caller; it must not be
+    turned into an answer (oracle only)"""
+    rng = run.rng
+    for _ in range(n):
+        c = charts.gen_chart(rng, nmax=8)
+        start = rng.randrange(1, c.n + 1)
+        host = rng.choice(["plain", "instr", "queued", "queued-off"])
+        spied = host != "plain" and rng.random() < 0.5
+        armed = [False]
+        bad_holder = [None]
+
+        def eff(chart, i, kind, e):
+            if armed[0] and i == bad_holder[0] and kind == "su":
+                raise SensorLost("state %d lost its sensor" % i)
+        out, hsm, fns = charts.run_real(c, [(0, start)], host=host, spied=spied,
+                                        builder=lambda log, spied=False, counter=None: c.build(log, spied=spied, counter=counter, effects=eff))
+        r0 = parse(out[0])
+        if r0["kind"] != "ok":
+            continue
+        path = c.path(int(r0["state"]))          # innermost first
+        if len(path) < 2:
+            continue
+        k = rng.randrange(0, len(path) - 1)
+        bad_holder[0] = path[k]
+        outward = path[k + 1:]
+        inward = path[:k + 1]
+        armed[0] = True
+        cj = case_json(c, [(0, start)], {"host": host, "spied": spied, "raises_on_parent_query": bad_holder[0]})
+        run.count("query while a handler on the active path raises when consulted")
+        run.traces_validated += 1
+        # (one query per chart object: a query that was cut short by an exception leaves the search cursor where it was)
+        for x in [rng.choice(outward) if rng.random() < 0.7 else rng.choice(inward)]:
+            try:
+                ans = hsm.is_in(fns[x])
+                got = "answered %s" % ans
+            except SensorLost:
+                got = "raised"
+            want_raise = x in outward
+            if want_raise and got != "raised":
+                run.violate("C22/is_in-swallows-exception", "in state %d, state %d raises when it is asked for its parent; is_in(%d) - a state that encloses "
+                            "both - %s instead of letting the exception through" % (path[0], bad_holder[0], x, got), cj)
+            elif not want_raise and got != "answered True":
+                run.violate("C22/is_in", "in state %d, is_in(%d) (the raising state %d lies outward of it or is it) %s" % (path[0], x, bad_holder[0], got), cj)
         run.case(cj, nontrivial=True)
 
 
